@@ -104,6 +104,9 @@ func (r *RaceSpec) Expected() []MG {
 
 func genRaceFrames(r *Rng, max int) []FrameSpec {
 	n := 1 + r.Intn(max)
+	if r.Chance(1, 5) {
+		n = 5 + r.Intn(6) // 5..10 frames
+	}
 	fs := make([]FrameSpec, n)
 	for i := range fs {
 		f := genFrame(r, true)
@@ -122,7 +125,11 @@ func GenRace(r *Rng) RaceSpec {
 	rs := RaceSpec{}
 	addr := 0xc000000000 + uint64(r.Intn(1<<24))
 	for i := 0; i < nops; i++ {
-		rs.Ops = append(rs.Ops, RaceOp{Write: r.Bool(), Addr: addr, ID: ids[i] + 1, Frames: genRaceFrames(r, 4)})
+		a := addr
+		if r.Chance(1, 3) {
+			a = addr + uint64(r.Intn(8)) // overlapping accesses at different addresses
+		}
+		rs.Ops = append(rs.Ops, RaceOp{Write: r.Bool(), Addr: a, ID: ids[i] + 1, Frames: genRaceFrames(r, 4)})
 	}
 	// a non-empty subset of the goroutines, in any order, has a creation section
 	order := r.Perm(nops)
